@@ -332,7 +332,18 @@ class CFG:
                 return False
             return any(fact(atom, truth) for atom, truth in implied(a.expr, label == "T"))
 
+        if normal_only and node not in self._normal_reachable():
+            # the node sits in an exception handler (reached through exceptional edges only): "every path" includes those edges, otherwise
+            # the answer would be vacuously true
+            normal_only = False
         return node not in self.reach(self.entry, avoid_edge=edge_has_fact, normal_only=normal_only)
+
+    def _normal_reachable(self) -> set:
+        cache = self.__dict__.get("_normal_reach_cache")
+        if cache is None:
+            cache = self.reach(self.entry, normal_only=True)
+            self.__dict__["_normal_reach_cache"] = cache
+        return cache
 
     def facts_on_all_paths(self, node: CNode, *, normal_only: bool = True) -> list[tuple[str, bool]]:
         """Atoms (as text) known true/false on every path to node (dominating branch facts)."""
